@@ -98,32 +98,15 @@ def find_seg(segs, v):
     return cur
 
 
-class _Hyd:
-    def __init__(self, case):
-        self.vJ = float(case["vJ"])
-        self.vMin = float(case["vmin"])
-        self._fast = float(case.get("fastest", 1))
-        self._lte = float(case["vLTE"])
-        self.TMinLowT, self.TMaxLowT = float(case["TLow"][0]), float(case["TLow"][1])
-        self.TMinHighT, self.TMaxHighT = float(case["THigh"][0]), float(case["THigh"][1])
-        self.doesPhaseTraceLimitvmax = [False, False]
-
-    def fastestDeflag(self):
-        return self._fast
-
-    def findvwLTE(self):
-        return self._lte
-
-
-class _Thermo:
-    Tnucl = TNUCL
-
-
 class _Bg:
     def __init__(self, tag):
         self.velocityProfile = tag
         self.fieldProfiles = tag
         self.temperatureProfile = tag
+
+
+class _Template:
+    epsilon = 1.0
 
 
 def synth_tuple(seg, v, tag, widths_id):
@@ -139,131 +122,232 @@ def synth_tuple(seg, v, tag, widths_id):
             _Bg(tag), HydroResults(float(seg.Tplus), float(seg.Tminus), float(tag)))
 
 
-def run_impl(case):
-    """Run the REAL EOM.solveWall / findWallVelocityDeflagrationHybrid on an EOM object whose
-    collaborators are stubs and whose wallPressure is the synthetic curve. Returns the
-    observation dict."""
-    import scipy.optimize
+def make_stub_eom(case):
+    """A real EOM built by the real EOM.__init__ (so the constructor's wiring of errTol,
+    pressRelErrTol, bounds, collaborators is part of what is tested); the collaborators are
+    bare instances of the real classes (no __init__) carrying only what solveWall reads."""
     from WallGo.equationOfMotion import EOM
-    from WallGo.containers import WallParams
-
-    logging.getLogger().setLevel(logging.ERROR)
-    segs = case["segs"]
-    nf = case["nf"]
-    eom = object.__new__(EOM)
-    eom.includeOffEq = False
-    eom.errTol = float(case["errTol"])
-    eom.pressRelErrTol = float(case["rel"])
-    eom.maxIterations = 20
+    from WallGo.boltzmann import BoltzmannSolver
+    from WallGo.grid3Scales import Grid3Scales
+    from WallGo.hydrodynamics import Hydrodynamics
+    from WallGo.thermodynamics import Thermodynamics
+    grid = object.__new__(Grid3Scales)
+    bs = object.__new__(BoltzmannSolver)
+    bs.grid = grid
+    bs.offEqParticles = []
+    th = object.__new__(Thermodynamics)
+    th.Tnucl = TNUCL
+    hy = object.__new__(Hydrodynamics)
+    hy.vJ = float(case["vJ"])
+    hy.vMin = float(case["vmin"])
+    fast, lte = float(case.get("fastest", 1)), float(case["vLTE"])
+    hy.fastestDeflag = lambda: fast
+    hy.findvwLTE = lambda: lte
+    hy.TMinLowT, hy.TMaxLowT = float(case["TLow"][0]), float(case["TLow"][1])
+    hy.TMinHighT, hy.TMaxHighT = float(case["THigh"][0]), float(case["THigh"][1])
+    hy.doesPhaseTraceLimitvmax = [False, False]
+    hy.template = _Template()
+    eom = EOM(bs, th, hy, grid, case["nf"], 1.0,
+              (float(case["wbounds"][0]) * TNUCL, float(case["wbounds"][1]) * TNUCL),
+              (float(case["obounds"][0]), float(case["obounds"][1])),
+              includeOffEq=False, forceEnergyConservation=True, forceImproveConvergence=False,
+              errTol=float(case["errTol"]), maxIterations=20,
+              pressRelErrTol=float(case["rel"]))
     # prior state of the object (history): must not matter
     eom.pressAbsErrTol = float(case["s0"][0])
     eom.successTemperatureProfile = bool(case["s0"][1])
     eom.successWallPressure = bool(case["s0"][2])
-    eom.hydrodynamics = _Hyd(case)
-    eom.thermo = _Thermo()
-    eom.nbrFields = nf
-    eom.wallThicknessBounds = (float(case["wbounds"][0]) * TNUCL, float(case["wbounds"][1]) * TNUCL)
-    eom.wallOffsetBounds = (float(case["obounds"][0]), float(case["obounds"][1]))
-    eom.forceImproveConvergence = False
-    eom.forceEnergyConservation = True
-    log = []
-    widths_id = {}
+    return eom
 
-    def wallPressure(vw, wallParams, atol=None, rtol=None, boltzmannResultsInput=None):
-        n = len(log)
-        a = eom.pressAbsErrTol if atol is None else atol
-        s = find_seg(segs, Fraction(float(vw)))
-        phaseA = (a == ATOL0)
-        eom.successTemperatureProfile = s.tprofA if phaseA else s.tprofB
-        eom.successWallPressure = s.pressA if phaseA else s.pressB
-        log.append(dict(v=float(vw), atol=float(a),
-                        guess=[float(x) for x in wallParams.widths] +
-                              [float(x) for x in wallParams.offsets]))
-        return synth_tuple(s, Fraction(float(vw)), n, widths_id)
 
-    eom.wallPressure = wallPressure
-    rec = dict(called=False)
-    orig = scipy.optimize.root_scalar
+class Harness:
+    """stub EOM + synthetic wallPressure + recording wrapper around root_scalar"""
 
-    def root_scalar(f, *args, **kw):
-        calls = []
+    def __init__(self, case):
+        logging.getLogger().setLevel(logging.ERROR)
+        self.case = case
+        self.segs = case["segs"]
+        self.eom = make_stub_eom(case)
+        self.log = []
+        self.widths_id = {}
+        self.recs = []          # one per root_scalar call
+        eom, segs, log = self.eom, self.segs, self.log
 
-        def g(x):
-            y = f(x)
-            calls.append((float(x), float(y)))
-            return y
-        rec.update(called=True, log_at_root=len(log), calls=calls,
-                   kw={k: (float(v) if isinstance(v, (int, float)) else str(v))
-                       for k, v in kw.items() if k != "bracket"},
-                   bracket=[float(b) for b in kw.get("bracket", [])])
-        kw2 = dict(kw)
-        if case.get("maxiter"):
-            kw2["maxiter"] = case["maxiter"]
+        def wallPressure(vw, wallParams, atol=None, rtol=None, boltzmannResultsInput=None):
+            n = len(log)
+            a = eom.pressAbsErrTol if atol is None else atol
+            s = find_seg(segs, Fraction(float(vw)))
+            phaseA = (a == ATOL0)
+            eom.successTemperatureProfile = s.tprofA if phaseA else s.tprofB
+            eom.successWallPressure = s.pressA if phaseA else s.pressB
+            log.append(dict(v=float(vw), atol=float(a),
+                            guess=[float(x) for x in wallParams.widths] +
+                                  [float(x) for x in wallParams.offsets]))
+            return synth_tuple(s, Fraction(float(vw)), n, self.widths_id)
+
+        eom.wallPressure = wallPressure
+
+    def __enter__(self):
+        import scipy.optimize
+        self._so = scipy.optimize
+        self._orig = orig = scipy.optimize.root_scalar
+        case, log, recs = self.case, self.log, self.recs
+
+        def root_scalar(f, *args, **kw):
+            calls = []
+
+            def g(x):
+                y = f(x)
+                calls.append((float(x), float(y)))
+                return y
+            rec = dict(called=True, log_at_root=len(log), calls=calls,
+                       kw={k: (float(v) if isinstance(v, (int, float)) else str(v))
+                           for k, v in kw.items() if k != "bracket"},
+                       bracket=[float(b) for b in kw.get("bracket", [])])
+            recs.append(rec)
+            kw2 = dict(kw)
+            if case.get("maxiter"):
+                kw2["maxiter"] = case["maxiter"]
+            try:
+                sol = orig(g, *args, **kw2)
+            except Exception as e:
+                rec["raised"] = repr(e)
+                raise
+            rec.update(root=float(sol.root), converged=bool(sol.converged), flag=str(sol.flag))
+            return sol
+
+        scipy.optimize.root_scalar = root_scalar
+        return self
+
+    def __exit__(self, *a):
+        self._so.root_scalar = self._orig
+        return False
+
+    def observe(self, res, log, rec, raised=None, retag=None):
+        eom = self.eom
+        obs = dict(raised=raised, log=log, rec=rec or dict(called=False),
+                   flags=[bool(eom.successTemperatureProfile), bool(eom.successWallPressure)],
+                   atolEnd=float(eom.pressAbsErrTol))
+        if res is not None:
+            rt = retag or (lambda t: t)
+            tags = dict(hydro=rt(int(res.velocityJouguet)), bg=rt(int(res.velocityProfile)),
+                        boltz=rt(int(res.deltaF[0])),
+                        params=rt(self.widths_id.get(id(res.wallWidths), -99)))
+            obs.update(success=res.success, type=res.solutionType.name,
+                       message=str(res.message), velocity=res.wallVelocity,
+                       velErr=res.wallVelocityError, vLTE=res.wallVelocityLTE, tags=tags,
+                       Tplus=float(res.temperaturePlus), Tminus=float(res.temperatureMinus),
+                       widths=[float(x) for x in res.wallWidths],
+                       offsets=[float(x) for x in res.wallOffsets])
+        return obs
+
+
+def run_impl(case):
+    """Run the REAL EOM.solveWall / findWallVelocityDeflagrationHybrid on a real EOM object
+    (built by EOM.__init__) whose collaborators are stubs and whose wallPressure is the
+    synthetic curve. Returns the observation dict."""
+    from WallGo.containers import WallParams
+    h = Harness(case)
+    eom, segs = h.eom, h.segs
+    raised, res = None, None
+    with h:
         try:
-            sol = orig(g, *args, **kw2)
-        except Exception as e:
-            rec["raised"] = repr(e)
-            raise
-        rec.update(root=float(sol.root), converged=bool(sol.converged), flag=str(sol.flag))
-        return sol
-
-    scipy.optimize.root_scalar = root_scalar
-    obs = dict(raised=None)
-    try:
-        if case["mode"] == "deflag":
-            res = eom.findWallVelocityDeflagrationHybrid(case.get("thick"))
-        else:
-            guess = WallParams(widths=np.array([float(x) for x in case["g0"][0]]),
-                               offsets=np.array([float(x) for x in case["g0"][1]]))
-            gmin = gmax = None
-            if case.get("givenMin") is not None:
-                v = Fraction(case["vmin"])
-                gmin = synth_tuple(find_seg(segs, v), v, -2, widths_id)
-            if case.get("givenMax") is not None:
-                v = Fraction(case["vmax"])
-                gmax = synth_tuple(find_seg(segs, v), v, -1, widths_id)
-            res = eom.solveWall(float(case["vmin"]), float(case["vmax"]), guess, gmin, gmax)
-    except ValueError as e:
-        obs["raised"] = repr(e)
-        res = None
-    finally:
-        scipy.optimize.root_scalar = orig
-    obs.update(log=log, rec=rec,
-               flags=[bool(eom.successTemperatureProfile), bool(eom.successWallPressure)],
-               atolEnd=float(eom.pressAbsErrTol))
-    if res is not None:
-        tags = dict(hydro=int(res.velocityJouguet), bg=int(res.velocityProfile),
-                    boltz=int(res.deltaF[0]), params=widths_id.get(id(res.wallWidths), -99))
-        obs.update(success=bool(res.success), type=res.solutionType.name,
-                   message=str(res.message), velocity=res.wallVelocity,
-                   velErr=res.wallVelocityError, vLTE=res.wallVelocityLTE, tags=tags,
-                   Tplus=float(res.temperaturePlus), Tminus=float(res.temperatureMinus),
-                   widths=[float(x) for x in res.wallWidths],
-                   offsets=[float(x) for x in res.wallOffsets],
-                   fd_same=res.deltaFFiniteDifference is res.deltaF
-                   if res.wallVelocity is not None else True)
-    return obs
+            if case["mode"] == "deflag":
+                res = eom.findWallVelocityDeflagrationHybrid(case.get("thick"))
+            else:
+                guess = WallParams(widths=np.array([float(x) for x in case["g0"][0]]),
+                                   offsets=np.array([float(x) for x in case["g0"][1]]))
+                gmin = gmax = None
+                if case.get("givenMin") is not None:
+                    v = Fraction(case["vmin"])
+                    gmin = synth_tuple(find_seg(segs, v), v, -2, h.widths_id)
+                if case.get("givenMax") is not None:
+                    v = Fraction(case["vmax"])
+                    gmax = synth_tuple(find_seg(segs, v), v, -1, h.widths_id)
+                res = eom.solveWall(float(case["vmin"]), float(case["vmax"]), guess, gmin, gmax)
+        except ValueError as e:
+            raised = repr(e)
+    return h.observe(res, h.log, h.recs[-1] if h.recs else None, raised)
 
 
-MSG = [("maximum pressure on the wall is negative", "MsgRunaway"),
-       ("pressure at vw=0 is positive", "MsgPositiveAtZero"),
-       ("temperature profile", "MsgTemperatureProfile"),
-       ("Tminus=", "MsgTminusRange"), ("Tplus=", "MsgTplusRange"),
-       ("has not converged", "MsgPressureNotConverged"),
-       ("saturates the given bounds", "MsgSaturated"),
-       ("found successfully", "MsgFound")]
+def run_deton(case):
+    """Drive the REAL EOM.findWallVelocityDetonation with the synthetic curve.  Returns
+    (results summary, list of (subcase, obs) -- one per solveWall call it made, in the form of
+    a `given` correspondence case -- and the list of per-call pairing records)."""
+    h = Harness(case)
+    eom, segs, log = h.eom, h.segs, h.log
+    real_solveWall = eom.solveWall
+    calls = []
+
+    def solveWall(vlo, vhi, guess, tlo=None, thi=None):
+        start = len(log)
+        nrec = len(h.recs)
+        s0 = (float(eom.pressAbsErrTol), bool(eom.successTemperatureProfile),
+              bool(eom.successWallPressure))
+        c = dict(vlo=float(vlo), vhi=float(vhi), start=start, s0=s0,
+                 g0=([float(x) for x in guess.widths], [float(x) for x in guess.offsets]),
+                 tlo=None if tlo is None else (float(tlo[0]), int(tlo[4].velocityJouguet)),
+                 thi=None if thi is None else (float(thi[0]), int(thi[4].velocityJouguet)))
+        calls.append(c)
+        raised, res = None, None
+        try:
+            res = real_solveWall(vlo, vhi, guess, tlo, thi)
+        except ValueError as e:
+            raised = repr(e)
+            c["raised"] = raised
+        lo_tag, hi_tag = (c["tlo"] or (0, None))[1], (c["thi"] or (0, None))[1]
+        retag = lambda t: -2 if t == lo_tag else -1 if t == hi_tag else t - start
+        rec = h.recs[nrec] if len(h.recs) > nrec else None
+        if rec is not None:
+            rec = dict(rec, log_at_root=rec["log_at_root"] - start)
+        c["obs"] = h.observe(res, [dict(e) for e in log[start:]], rec, raised, retag)
+        if raised:
+            raise ValueError(raised)
+        return res
+
+    eom.solveWall = solveWall
+    out = dict(raised=None, results=None)
+    with h:
+        try:
+            lst = eom.findWallVelocityDetonation(
+                float(case["vmin"]), float(case["vmax"]), case.get("thick"),
+                case["npmin"], case["npmax"], case["overshoot"], float(case["errTol"]),
+                case["onlySmallest"])
+            out["results"] = [dict(success=r.success, type=r.solutionType.name,
+                                   velocity=r.wallVelocity, message=str(r.message))
+                              for r in lst]
+        except ValueError as e:
+            out["raised"] = repr(e)
+    out["log"] = log
+    out["calls"] = calls
+    return out
+
+
 TYPES = dict(DEFLAGRATION="Deflagration", DETONATION="Detonation", RUNAWAY="Runaway",
              DEFLAGRATION_OR_RUNAWAY="DeflagrationOrRunaway", ERROR="ErrorType")
 
+# (kind, mode, text) per exit of solveWall, extracted from the AST on this run
+MESSAGES = []
+
 
 def msg_kind(obs):
+    """which exit of solveWall produced the message: decided with the exit/message table
+    extracted from the source, not from the wording"""
     m = obs["message"]
-    for key, k in MSG:
-        if key in m:
-            return k
-    if obs["rec"].get("flag") is not None and m == obs["rec"]["flag"]:
-        return "MsgRootFinder"
-    return "MsgRootFinder"
+    for kind, mode, text in MESSAGES:
+        if mode == "exact" and m == text:
+            return kind
+    best = None
+    for kind, mode, text in MESSAGES:
+        if mode == "prefix" and text and m.startswith(text):
+            if best is None or len(text) > len(best[1]):
+                best = (kind, text)
+    if best:
+        return best[0]
+    for kind, mode, text in MESSAGES:
+        if mode == "flag" and obs["rec"].get("flag") is not None and m == obs["rec"]["flag"]:
+            return kind
+    return "MsgUnclassified"
 
 
 def window(case):
@@ -377,7 +461,7 @@ def gen_case(rng, scenario=None):
         ["root"] * 8 + ["runaway", "doubling", "doubling", "positive", "multi", "multi",
                         "zero_end", "nonconv", "random", "random", "random", "degenerate"])
     if scenario == "degenerate":
-        mode = rng.choice(["direct", "given"])
+        mode = rng.choice(["direct", "given", "deflag"])
     if mode != "deflag" and rng.random() < 0.4:
         vJ = Fraction(rng.randint(100, 400), 1024)     # detonation-typed roots
     wlo, whi = Fraction(1, 128), Fraction(10)
@@ -414,6 +498,8 @@ def gen_case(rng, scenario=None):
         k = rng.randint(1, 3)
         vmin = Fraction(rng.randint(8, 30), 256)
         vmax = vmin * 2 ** k + Fraction(1, 2 ** rng.choice([36, 40, 44]))
+        if mode == "deflag":
+            vJ = fastest = vmax
         segs = [mkseg(0, Fraction(rng.randint(1, 16), 8), 0),
                 mkseg(vmin * 2 ** k - Fraction(1, 1024), -Fraction(rng.randint(1, 16), 8), 0),
                 mkseg(vmax, Fraction(rng.randint(1, 16), 8), 0)]
@@ -610,11 +696,154 @@ def direct_synthetic(ctx, case, obs):
                 key="bracket-wider-than-errTol")
     if rec["called"] and "kw" in rec:
         if rec["kw"].get("xtol") != float(case["errTol"]):
-            ctx.cov.setdefault("notes", [])
-            if "xtol" not in ctx.cov["notes"]:
-                ctx.cov["notes"].append("xtol")
-                ctx.log("note: root_scalar received xtol=%r while errTol=%r"
-                        % (rec["kw"].get("xtol"), case["errTol"]))
+            fail(ctx, "the root finder received xtol=%r while the configured errTol is %r"
+                 % (rec["kw"].get("xtol"), case["errTol"]),
+                 dict(kind="synthetic", case=cj), key="xtol-not-errTol")
+
+
+# --------------------------------------------------------------------------------------
+# detonation search on synthetic curves
+
+def gen_deton_case(rng, scenario=None):
+    nf = rng.choice([1, 2])
+    errTol = rng.choice([1e-2, 1e-3, 1e-4])
+    vJ = Fraction(rng.randint(400, 640), 1024)
+    vmin = vJ + Fraction(rng.randint(1, 40), 1024)
+    vmax = Fraction(rng.randint(900, 1013), 1024)
+    span = vmax - vmin
+    scenario = scenario or rng.choice(["root", "root", "root", "runaway", "positive", "posneg",
+                                       "multi", "multi", "late"])
+
+    def mkseg(x0, p0, slope):
+        s = Seg(x0, p0, slope, nf)
+        s.widths = [dy(rng, 1, 4, 16) for _ in range(nf)]
+        s.offsets = [Fraction(0)] + [dy(rng, -2, 2, 16) for _ in range(nf - 1)]
+        s.Tplus, s.Tminus = dy(rng, 90, 110, 4), dy(rng, 80, 100, 4)
+        s.tprofA, s.pressA = rng.random() < 0.7, rng.random() < 0.7
+        return s
+
+    if scenario in ("root", "late"):
+        f = rng.randint(40, 62) if scenario == "late" else rng.randint(2, 60)
+        r = vmin + span * Fraction(f, 64)
+        slope = Fraction(rng.randint(4, 400), 4)
+        segs = [mkseg(0, -slope * r, slope)]
+    elif scenario == "runaway":
+        segs = [mkseg(0, -Fraction(rng.randint(1, 100), 4), Fraction(rng.randint(0, 3), 4))]
+    elif scenario == "positive":
+        segs = [mkseg(0, Fraction(rng.randint(1, 40), 4), Fraction(rng.randint(0, 8), 4))]
+    elif scenario == "posneg":
+        segs = [mkseg(0, Fraction(rng.randint(1, 40), 4), 0),
+                mkseg(vmin + span * Fraction(rng.randint(8, 56), 64),
+                      -Fraction(rng.randint(1, 40), 4), 0)]
+    else:   # multi: down-crossing in between two up-crossings
+        a = vmin + span * Fraction(rng.randint(6, 18), 64)
+        b_ = vmin + span * Fraction(rng.randint(24, 38), 64)
+        c_ = vmin + span * Fraction(rng.randint(44, 58), 64)
+        segs = [mkseg(0, -2, 0), mkseg(a, 3, 0), mkseg(b_, -4, 0), mkseg(c_, 5, 1)]
+    fault = rng.choice(["none"] * 5 + ["tprof", "press", "TminusLo", "TplusHi", "widthHi"])
+    wlo, whi = Fraction(1, 128), Fraction(10)
+    TLow, THigh = (Fraction(50), Fraction(120)), (Fraction(60), Fraction(150))
+    for sg in segs:
+        if fault == "tprof":
+            sg.tprofB = False
+        if fault == "press":
+            sg.pressB = False
+        if fault == "TminusLo":
+            sg.Tminus = TLow[0] - Fraction(1, 4)
+        if fault == "TplusHi":
+            sg.Tplus = THigh[1] + Fraction(1, 4)
+        if fault == "widthHi":
+            sg.widths[0] = whi
+    return dict(nf=nf, errTol=errTol, rel=rng.choice([0.1, 0.01]), mode="deton", vmin=vmin,
+                vmax=vmax, vJ=vJ, fastest=vJ, vLTE=dy(rng, 0.1, 0.9, 64), segs=segs,
+                scenario="deton-" + scenario, fault=fault, maxiter=None, TLow=TLow, THigh=THigh,
+                wbounds=(wlo, whi), obounds=(Fraction(-10), Fraction(10)),
+                s0=(rng.choice([0.0, 1e-8, 3.5]), rng.random() < 0.5, rng.random() < 0.5),
+                g0=([Fraction(1)] * nf, [Fraction(0)] * nf),
+                thick=rng.choice([None, float(dy(rng, 1, 4, 16))]),
+                givenMin=None, givenMax=None, npmin=rng.choice([3, 5]),
+                npmax=rng.choice([8, 20]), overshoot=rng.choice([0.05, 0.2]),
+                onlySmallest=rng.random() < 0.6)
+
+
+def direct_deton(ctx, case, out):
+    """what the detonation search must satisfy, on the real findWallVelocityDetonation; returns
+    the (subcase, obs) pairs of the solveWall calls it made (each is a `given` correspondence
+    case for the Coq model)"""
+    cj = case_json(case)
+    rep = dict(kind="synthetic-deton", case=cj)
+    segs = case["segs"]
+    vmin, vmax, vJ = Fraction(case["vmin"]), Fraction(case["vmax"]), Fraction(case["vJ"])
+    log = out["log"]
+    subs = []
+    if out["raised"]:
+        fail(ctx, "findWallVelocityDetonation raised %s" % out["raised"], rep, key="raises")
+        return subs
+    for c in out["calls"]:
+        vlo, vhi = Fraction(c["vlo"]), Fraction(c["vhi"])
+        ctx.count("deton_solveWall_call")
+        ok = c["tlo"] is not None and c["thi"] is not None
+        if ok:
+            (plo, tlo), (phi_, thi) = c["tlo"], c["thi"]
+            ok = (0 <= tlo < len(log) and 0 <= thi < len(log)
+                  and Fraction(log[tlo]["v"]) == vlo and Fraction(log[thi]["v"]) == vhi
+                  and plo == float(find_seg(segs, vlo).p(vlo))
+                  and phi_ == float(find_seg(segs, vhi).p(vhi)))
+        if not ok:
+            fail(ctx, "detonation search handed solveWall(%r, %r) end tuples that were not "
+                      "evaluated at those ends: %s / %s" % (c["vlo"], c["vhi"], c["tlo"], c["thi"]),
+                 rep, key="deton-tuple-pairing")
+            continue
+        if not (vmin <= vlo < vhi <= vmax and c["tlo"][0] <= 0 <= c["thi"][0]):
+            fail(ctx, "detonation search bracket [%r, %r] (p=%r, %r) outside [%r, %r] or "
+                      "without sign change" % (c["vlo"], c["vhi"], c["tlo"][0], c["thi"][0],
+                                               float(vmin), float(vmax)), rep, key="window")
+        sub = dict(case, mode="given", vmin=vlo, vmax=vhi, s0=c["s0"], givenMin=True,
+                   givenMax=True, g0=([Fraction(x) for x in c["g0"][0]],
+                                      [Fraction(x) for x in c["g0"][1]]))
+        obs = c["obs"]
+        direct_synthetic(ctx, sub, obs)
+        if not obs["raised"] and obs.get("success") and obs.get("velocity") is not None:
+            if obs["type"] != "DETONATION" or not Fraction(float(obs["velocity"])) > vJ:
+                fail(ctx, "detonation search: success at v=%r typed %s (vJ=%s)" % (
+                    obs["velocity"], obs["type"], float(vJ)), rep, key="window")
+        subs.append((sub, obs))
+    res = out["results"]
+    scan = [e for e in log if e["atol"] == 0.0]
+    pIni = find_seg(segs, vmin).p(vmin)
+    pLast = find_seg(segs, Fraction(scan[-1]["v"])).p(Fraction(scan[-1]["v"])) if scan else None
+    if out["calls"]:
+        if len(res) != len(out["calls"]) or (case["onlySmallest"] and len(res) != 1):
+            fail(ctx, "detonation search returned %d results for %d brackets" % (
+                len(res), len(out["calls"])), rep, key="deton-results")
+        for r, c in zip(res, out["calls"]):
+            o = c["obs"]
+            if (r["success"], r["type"], r["velocity"]) != (o.get("success"), o.get("type"),
+                                                            o.get("velocity")):
+                fail(ctx, "detonation search result %s is not what solveWall returned %s" % (
+                    r, {k: o.get(k) for k in ("success", "type", "velocity")}), rep,
+                    key="deton-results")
+    else:
+        ok = len(res) == 1 and res[0]["success"] is True and res[0]["velocity"] is None
+        if ok:
+            t = res[0]["type"]
+            ok = ((t == "RUNAWAY" and pLast <= 0 and not (pIni > 0 > pLast))
+                  or (t == "DEFLAGRATION" and pIni > 0 and pLast > 0)
+                  or (t == "DEFLAGRATION_OR_RUNAWAY" and pIni > 0 > pLast))
+        if not ok:
+            fail(ctx, "detonation search without a bracket returned %s with p(vmin)=%s, "
+                      "p(last probed)=%s" % (res, float(pIni), None if pLast is None else
+                                             float(pLast)), rep, key="deton-verdict")
+    for r in res:
+        if (r["type"] == "ERROR") != (not r["success"]):
+            fail(ctx, "detonation result success=%s type=%s" % (r["success"], r["type"]), rep,
+                 key="label")
+    # every scan point lies in the window, the first one is vmin
+    if scan and (Fraction(scan[0]["v"]) != vmin or
+                 any(not (vmin <= Fraction(e["v"]) <= vmax) for e in scan)):
+        fail(ctx, "detonation scan left [vmin, vmax]: %s" % [e["v"] for e in scan], rep,
+             key="window")
+    return subs
 
 
 def correspondence(ctx, proved):
@@ -636,12 +865,36 @@ def correspondence(ctx, proved):
         ctx.count("synthetic_run", case_json(case), bucket=bucket)
         ctx.count("scenario", None, nontrivial=False, bucket="%s/%s" % (case["mode"], case["scenario"]))
         direct_synthetic(ctx, case, obs)
+        if not obs["raised"] and msg_kind(obs) == "MsgUnclassified":
+            ctx.broken.append("correspondence: message %r is none of the messages of "
+                              "solveWall's exits" % obs["message"][:80])
+            continue
         terms.append(coq_case(case, obs))
         kept.append((case, obs))
         if i < 2:
             ctx.sample(dict(case=case_json(case), observed={k: obs[k] for k in obs
                                                            if k not in ("log", "rec")},
                             evaluations=[e["v"] for e in obs["log"]]))
+    # the detonation search: real findWallVelocityDetonation on the same kind of curves; each
+    # solveWall call it makes is one more correspondence case (both end tuples supplied)
+    dscen = ["root", "runaway", "positive", "posneg", "multi", "late"]
+    for i in range(ctx.n(60, 1000)):
+        case = gen_deton_case(rng, scenario=dscen[i] if i < len(dscen) else None)
+        try:
+            out = run_deton(case)
+        except Exception as e:
+            fail(ctx, "findWallVelocityDetonation raised %r" % e,
+                 dict(kind="synthetic-deton", case=case_json(case)), key="raises")
+            ctx.log(traceback.format_exc())
+            continue
+        verdict = "+".join(sorted({r["type"] for r in out["results"]})) if out["results"] \
+            else "raised"
+        ctx.count("synthetic_deton_run", case_json(case),
+                  bucket="%s/%d calls/%s" % (case["scenario"], len(out["calls"]), verdict))
+        for sub, obs in direct_deton(ctx, case, out):
+            if obs["raised"] or msg_kind(obs) != "MsgUnclassified":
+                terms.append(coq_case(sub, obs))
+                kept.append((sub, obs))
     if proved:
         bad = ctx.run_cases("corr", HEADER, terms, per_file=70)
         for bfile in bad:
@@ -732,12 +985,14 @@ def phi_broken(p, T):
     return (3 * p["E"] * T + math.sqrt(disc)) / (2 * p["lam"])
 
 
-def new_manager(params, errTol, M=20):
+def new_manager(params, errTol, M=20, maxIter=None):
     import WallGo
     m = WallGo.WallGoManager()
     m.setVerbosity(logging.ERROR)
     m.config.configGrid.spatialGridSize = M
     m.config.configEOM.errTol = errTol
+    if maxIter is not None:
+        m.config.configEOM.maxIterations = maxIter
     model = make_model(params)
     m.registerModel(model)
     return m, model
@@ -754,10 +1009,10 @@ def set_point(m, model, params, Tn):
                                       fieldValueVariationScale=[50.0]))
 
 
-def settings():
+def settings(thick=5.0):
     import WallGo
     return WallGo.WallSolverSettings(bIncludeOffEquilibrium=False, meanFreePathScale=50.0,
-                                     wallThicknessGuess=5.0)
+                                     wallThicknessGuess=thick)
 
 
 def summary(r):
@@ -775,14 +1030,15 @@ POINT_B = dict(D=0.2, E=0.052, lam=0.1, T0=80.0, g=100.0)
 TN = 83.0
 
 
-def e2e_sign_and_window(ctx, params, errTol, res, label, M=20, calls=None):
+def e2e_sign_and_window(ctx, params, errTol, res, label, M=20, calls=None, maxIter=None,
+                        thick=5.0, Tn=TN):
     """property on one result: window, labelling, pressure sign change at vw -+ k errTol on a
     FRESH EOM of a FRESH manager"""
     from WallGo.containers import WallParams
-    rep = dict(kind="e2e", params=params, Tn=TN, errTol=errTol, M=M, label=label,
-               result=summary(res))
-    m2, model2 = new_manager(params, errTol, M)
-    set_point(m2, model2, params, TN)
+    rep = dict(kind="e2e", params=params, Tn=Tn, errTol=errTol, M=M, label=label,
+               maxIter=maxIter, thick=thick, result=summary(res))
+    m2, model2 = new_manager(params, errTol, M, maxIter)
+    set_point(m2, model2, params, Tn)
     hyd = m2.hydrodynamics
     if (res.solutionType.name == "ERROR") != (not res.success):
         fail(ctx, "e2e: success=%s with type %s" % (res.success, res.solutionType.name),
@@ -800,7 +1056,10 @@ def e2e_sign_and_window(ctx, params, errTol, res, label, M=20, calls=None):
     if res.velocityJouguet != hyd.vJ:
         fail(ctx, "e2e: returned vJ=%r is not the current hydrodynamics' vJ=%r" % (
             res.velocityJouguet, hyd.vJ), rep, key="history")
-    eom = m2.setupWallSolver(settings()).eom
+    eom = m2.setupWallSolver(settings(thick)).eom
+    # reference for (ii): same fresh manager, inner iteration allowed to run to convergence
+    eom_ref = m2.setupWallSolver(settings(thick)).eom
+    eom_ref.maxIterations = max(50, eom_ref.maxIterations)
     # (i) the function the solver saw: its own last first-guess and pressure tolerance, on the
     #     fresh EOM.  At the reported velocity this must reproduce the solver's final pressure
     #     bit for bit (wallPressure is a function of (v, guess, tolerance) only).
@@ -829,7 +1088,9 @@ def e2e_sign_and_window(ctx, params, errTol, res, label, M=20, calls=None):
     for k in (-2, 2):
         g = WallParams(widths=np.array(res.wallWidths, dtype=float).copy(),
                        offsets=np.array(res.wallOffsets, dtype=float).copy())
-        r = eom.wallPressure(vw + k * errTol, g, atol=1e-10, rtol=1e-6)
+        r = eom_ref.wallPressure(vw + k * errTol, g, atol=1e-10, rtol=1e-6)
+        if not eom_ref.successWallPressure:
+            ctx.log("note: reference pressure evaluation did not converge at", vw + k * errTol)
         ps[k] = float(r[0])
         wout[k] = [float(x) for x in r[1].widths]
         ctx.count("e2e_pressure_eval")
@@ -864,28 +1125,114 @@ def e2e_sign_and_window(ctx, params, errTol, res, label, M=20, calls=None):
 
 
 def recorded_solve(m, S):
-    """manager.solveWall with every EOM.wallPressure call recorded (the bound method is
-    wrapped from outside for the duration of the call)"""
+    """manager.solveWall with every EOM.wallPressure call recorded and the root finder's
+    keywords spied on (bound methods / module functions wrapped from outside for the duration
+    of the call).  recorded_solve.spy holds the EOM object(s) used and the xtol values."""
+    import scipy.optimize
     from WallGo.equationOfMotion import EOM
     orig = EOM.wallPressure
+    orig_rs = scipy.optimize.root_scalar
     calls = []
+    spy = dict(eoms=[], xtol=[])
 
     def wallPressure(self, wallVelocity, wallParams, atol=None, rtol=None,
                      boltzmannResultsInput=None):
+        if not any(e is self for e in spy["eoms"]):
+            spy["eoms"].append(self)
         guess = ([float(x) for x in wallParams.widths], [float(x) for x in wallParams.offsets])
         a = float(self.pressAbsErrTol if atol is None else atol)
         r = orig(self, wallVelocity, wallParams, atol, rtol, boltzmannResultsInput)
         calls.append(dict(v=float(wallVelocity), atol=a, guess=guess, pressure=float(r[0]),
                           out=([float(x) for x in r[1].widths],
-                               [float(x) for x in r[1].offsets])))
+                               [float(x) for x in r[1].offsets]),
+                          pressOk=bool(self.successWallPressure),
+                          tprofOk=bool(self.successTemperatureProfile)))
         return r
 
+    def root_scalar(f, *a, **kw):
+        # only the root finder call made by EOM.solveWall itself (its function argument is a
+        # closure of solveWall); hydrodynamics makes root_scalar calls of its own
+        if getattr(f, "__qualname__", "").startswith("EOM.solveWall.<locals>"):
+            spy["xtol"].append(kw.get("xtol"))
+        return orig_rs(f, *a, **kw)
+
     EOM.wallPressure = wallPressure
+    scipy.optimize.root_scalar = root_scalar
     try:
         res = m.solveWall(S)
     finally:
         EOM.wallPressure = orig
+        scipy.optimize.root_scalar = orig_rs
+    recorded_solve.spy = spy
     return res, calls
+
+
+def detonation_spied(m, S):
+    """manager.solveWallDetonation with the arguments of EOM.findWallVelocityDetonation
+    recorded"""
+    from WallGo.equationOfMotion import EOM
+    orig = EOM.findWallVelocityDetonation
+    got = {}
+
+    def findWallVelocityDetonation(self, vmin, vmax, *a, **kw):
+        names = ["wallThicknessIni", "nbrPointsMin", "nbrPointsMax", "overshootProb", "rtol",
+                 "onlySmallest"]
+        d = dict(zip(names, a))
+        d.update(kw)
+        got.update(vmin=float(vmin), vmax=float(vmax), rtol=d.get("rtol"),
+                   eom_errTol=self.errTol, hydro_is_current=self.hydrodynamics is m.hydrodynamics
+                   and self.thermo is m.thermodynamics)
+        return orig(self, vmin, vmax, *a, **kw)
+
+    EOM.findWallVelocityDetonation = findWallVelocityDetonation
+    try:
+        res = m.solveWallDetonation(S)
+    finally:
+        EOM.findWallVelocityDetonation = orig
+    return res, got
+
+
+def check_settings(ctx, m, S, res, rep, label):
+    """the EOM that just solved was built from the manager's CURRENT settings and objects, the
+    root finder got the configured tolerance, the reported error is errTol * vw"""
+    spy = recorded_solve.spy
+    ce, cg = m.config.configEOM, m.config.configGrid
+    ctx.count("e2e_settings_spy")
+    bad = []
+    if len(spy["eoms"]) != 1:
+        bad.append("%d EOM objects evaluated the pressure" % len(spy["eoms"]))
+    for eom in spy["eoms"]:
+        for attr, want in (("errTol", ce.errTol), ("maxIterations", ce.maxIterations),
+                           ("pressRelErrTol", ce.pressRelErrTol),
+                           ("forceEnergyConservation", ce.conserveEnergyMomentum),
+                           ("wallThicknessBounds", ce.wallThicknessBounds),
+                           ("wallOffsetBounds", ce.wallOffsetBounds),
+                           ("includeOffEq", S.bIncludeOffEquilibrium)):
+            got = getattr(eom, attr, "<missing>")
+            if got != want or type(got) is not type(want):
+                bad.append("EOM.%s = %r, configured %r" % (attr, got, want))
+        if eom.thermo is not m.thermodynamics:
+            bad.append("EOM.thermo is not the manager's current thermodynamics")
+        if eom.hydrodynamics is not m.hydrodynamics:
+            bad.append("EOM.hydrodynamics is not the manager's current hydrodynamics")
+        if eom.grid.M != cg.spatialGridSize or eom.grid.N != cg.momentumGridSize:
+            bad.append("grid %dx%d, configured %dx%d" % (eom.grid.M, eom.grid.N,
+                                                        cg.spatialGridSize, cg.momentumGridSize))
+        if eom.grid is not eom.boltzmannSolver.grid:
+            bad.append("EOM and BoltzmannSolver use different grids")
+        if eom.nbrFields != m.model.fieldCount:
+            bad.append("EOM.nbrFields=%r, model has %r" % (eom.nbrFields, m.model.fieldCount))
+    for x in spy["xtol"]:
+        if x != ce.errTol:
+            bad.append("root finder got xtol=%r, configured errTol=%r" % (x, ce.errTol))
+    if res.wallVelocity is not None and res.wallVelocityError != ce.errTol * res.wallVelocity:
+        bad.append("wallVelocityError=%r, errTol*vw=%r" % (res.wallVelocityError,
+                                                          ce.errTol * res.wallVelocity))
+    if res.wallVelocity is not None and not spy["xtol"]:
+        bad.append("a velocity was reported without a root finder call")
+    if bad:
+        fail(ctx, "e2e [%s]: solver not built from the current settings: %s" % (
+            label, "; ".join(bad)), dict(rep, label=label, stale=bad), key="stale-settings")
 
 
 def same(a, b):
@@ -900,6 +1247,7 @@ def e2e_history(ctx, errTol, thorough_extra=False):
     m, model = new_manager(POINT_A, errTol)
     set_point(m, model, POINT_A, TN)
     rA1, callsA = recorded_solve(m, S)
+    check_settings(ctx, m, S, rA1, dict(kind="history", errTol=errTol), "first solve")
     hist.append("solveWall@A")
     sA1 = summary(rA1)
     ctx.count("e2e_solve", dict(point="A", errTol=errTol))
@@ -913,14 +1261,36 @@ def e2e_history(ctx, errTol, thorough_extra=False):
     lte = m.wallSpeedLTE()
     hist.append("wallSpeedLTE")
     try:
-        det = m.solveWallDetonation(S)
+        det, dargs = detonation_spied(m, S)
         hist.append("solveWallDetonation")
+        hyd, ce = m.hydrodynamics, m.config.configEOM
+        drep = dict(rep, history=list(hist), detonation_args=dargs)
+        ctx.count("e2e_detonation")
+        want_lo = max(hyd.vJ + 1e-3, hyd.slowestDeton())
+        if not (dargs and dargs["vmin"] == want_lo and dargs["vmin"] > hyd.vJ
+                and dargs["vmax"] == ce.vwMaxDeton and dargs["vmin"] < dargs["vmax"] < 1
+                and dargs["rtol"] == ce.errTol and dargs["eom_errTol"] == ce.errTol
+                and dargs["hydro_is_current"]):
+            fail(ctx, "solveWallDetonation searched %s; expected window [max(vJ+1e-3, "
+                      "slowestDeton)=%r, vwMaxDeton=%r] with errTol=%r on the current "
+                      "hydrodynamics" % (dargs, want_lo, ce.vwMaxDeton, ce.errTol), drep,
+                 key="window")
         for d in det:
             if (d.solutionType.name == "ERROR") != (not d.success):
                 fail(ctx, "detonation result success=%s type=%s" % (
-                    d.success, d.solutionType.name), dict(rep, history=list(hist)), key="label")
+                    d.success, d.solutionType.name), drep, key="label")
+            if d.wallVelocity is not None and d.success and not (
+                    dargs["vmin"] <= d.wallVelocity <= dargs["vmax"]
+                    and d.solutionType.name == "DETONATION"):
+                fail(ctx, "detonation velocity %r (%s) outside the searched window %s" % (
+                    d.wallVelocity, d.solutionType.name, dargs), drep, key="window")
+            if d.wallVelocity is None and not (d.success and d.solutionType.name in (
+                    "RUNAWAY", "DEFLAGRATION", "DEFLAGRATION_OR_RUNAWAY")):
+                fail(ctx, "detonation search without velocity: success=%s type=%s" % (
+                    d.success, d.solutionType.name), drep, key="label")
     except Exception as e:   # noqa
         ctx.log("solveWallDetonation raised", repr(e))
+        ctx.broken.append("harness: solveWallDetonation raised %r" % e)
     sA3 = summary(m.solveWall(S))
     hist.append("solveWall@A")
     ctx.count("e2e_solve")
@@ -934,6 +1304,8 @@ def e2e_history(ctx, errTol, thorough_extra=False):
     set_point(m, model, POINT_B, TN)
     hist.append("params->B in place; setupThermodynamicsHydrodynamics")
     rB, callsB = recorded_solve(m, S)
+    check_settings(ctx, m, S, rB, dict(kind="history", errTol=errTol, history=list(hist)),
+                   "point B after history")
     hist.append("solveWall@B")
     sB = summary(rB)
     ctx.count("e2e_solve", dict(point="B after A", errTol=errTol))
@@ -949,6 +1321,36 @@ def e2e_history(ctx, errTol, thorough_extra=False):
                 sBf["Tplus"]),
             dict(rep, history=list(hist), with_history=sB, fresh=sBf), key="history")
     ctx.sample(dict(e2e=dict(errTol=errTol, A=sA1, B=sB)))
+    # settings changed on the live manager (no new setup): tolerance, iteration cap, grid size,
+    # thickness guess -- the next solve must be the one a fresh manager with these settings gives
+    tol2, M2, mi2, thick2 = errTol / 10, 24, 25, 6.0
+    m.config.configEOM.errTol = tol2
+    m.config.configEOM.maxIterations = mi2
+    m.config.configGrid.spatialGridSize = M2
+    S2 = settings(thick2)
+    hist.append("config: errTol->%g, maxIterations->%d, spatialGridSize->%d; "
+                "wallThicknessGuess->%g" % (tol2, mi2, M2, thick2))
+    rC, callsC = recorded_solve(m, S2)
+    repC = dict(rep, history=list(hist), settings=dict(errTol=tol2, maxIterations=mi2, M=M2,
+                                                       wallThicknessGuess=thick2))
+    check_settings(ctx, m, S2, rC, repC, "after changing settings on the live manager")
+    hist.append("solveWall@B")
+    ctx.count("e2e_solve", dict(point="B, settings changed", errTol=tol2))
+    mg, modelg = new_manager(POINT_B, tol2, M2, mi2)
+    set_point(mg, modelg, POINT_B, TN)
+    sC, sCf = summary(rC), summary(mg.solveWall(S2))
+    ctx.count("e2e_solve", dict(point="B fresh, new settings", errTol=tol2))
+    if not same(sC, sCf):
+        fail(ctx,
+             "result depends on call history: after %s the manager returns vw=%r err=%r widths=%r, "
+             "a fresh manager with the same settings returns vw=%r err=%r widths=%r" % (
+                 " -> ".join(hist[:-1]), sC["vw"], sC["err"], sC["widths"], sCf["vw"], sCf["err"],
+                 sCf["widths"]), dict(repC, with_history=sC, fresh=sCf), key="history")
+    if same(sC, sB):
+        ctx.broken.append("harness: changing the settings did not change the result "
+                          "(settings-history test is blind)")
+    e2e_sign_and_window(ctx, POINT_B, tol2, rC, "point B after settings change", M=M2,
+                        calls=callsC, maxIter=mi2, thick=thick2)
     e2e_sign_and_window(ctx, POINT_A, errTol, rA1, "point A, first call", calls=callsA)
     e2e_sign_and_window(ctx, POINT_B, errTol, rB, "point B after history " + " -> ".join(hist),
                         calls=callsB)
@@ -957,14 +1359,52 @@ def e2e_history(ctx, errTol, thorough_extra=False):
     return sA1, sB
 
 
-def e2e_tolerance(ctx, errTol, params=POINT_A, M=20):
-    m, model = new_manager(params, errTol, M)
+def e2e_tolerance(ctx, errTol, params=POINT_A, M=20, maxIter=None):
+    m, model = new_manager(params, errTol, M, maxIter)
     set_point(m, model, params, TN)
-    r, calls = recorded_solve(m, settings())
-    ctx.count("e2e_solve", dict(point=params, errTol=errTol, M=M))
-    e2e_sign_and_window(ctx, params, errTol, r, "single solve errTol=%g M=%d" % (errTol, M), M,
-                        calls=calls)
+    S = settings()
+    r, calls = recorded_solve(m, S)
+    label = "single solve errTol=%g M=%d%s" % (errTol, M, "" if maxIter is None else
+                                               " maxIterations=%d" % maxIter)
+    check_settings(ctx, m, S, r, dict(kind="e2e", params=params, Tn=TN, errTol=errTol, M=M,
+                                      maxIter=maxIter), label)
+    ctx.count("e2e_solve", dict(point=params, errTol=errTol, M=M, maxIter=maxIter),
+              bucket="%s/%s" % (r.solutionType.name, "ok" if r.success else "fail"))
+    # flag soundness of the real wallPressure: a success means the LAST evaluation claimed
+    # convergence; the sign test below is then made against a reference EOM whose inner
+    # iteration may run to convergence (maxIterations >= 50)
+    if r.success and calls and not (calls[-1]["pressOk"] and calls[-1]["tprofOk"]):
+        fail(ctx, "e2e: success although the final evaluation left successWallPressure=%s, "
+                  "successTemperatureProfile=%s [%s]" % (calls[-1]["pressOk"],
+                                                          calls[-1]["tprofOk"], label),
+             dict(kind="e2e", params=params, Tn=TN, errTol=errTol, M=M, maxIter=maxIter,
+                  label=label), key="label")
+    e2e_sign_and_window(ctx, params, errTol, r, label, M, calls=calls, maxIter=maxIter)
     return summary(r)
+
+
+def e2e_tn_change(ctx):
+    """nucleation temperature changed on a live manager (re-setup with another Tn, same model)"""
+    S = settings()
+    m, model = new_manager(POINT_A, 1e-3)
+    set_point(m, model, POINT_A, TN)
+    m.solveWall(S)
+    Tn2 = TN + 0.5
+    set_point(m, model, POINT_A, Tn2)
+    r, calls = recorded_solve(m, S)
+    rep = dict(kind="history", errTol=1e-3, history=["solveWall@Tn=%g" % TN,
+                                                      "setup Tn=%g" % Tn2, "solveWall"])
+    check_settings(ctx, m, S, r, rep, "after changing Tn")
+    mf, modelf = new_manager(POINT_A, 1e-3)
+    set_point(mf, modelf, POINT_A, Tn2)
+    a, b = summary(r), summary(mf.solveWall(S))
+    ctx.count("e2e_solve", dict(point="A", Tn=Tn2))
+    if not same(a, b):
+        fail(ctx, "result depends on call history: after a solve at Tn=%g the manager returns "
+                  "%s at Tn=%g, a fresh manager %s" % (TN, a, Tn2, b),
+             dict(rep, with_history=a, fresh=b), key="history")
+    e2e_sign_and_window(ctx, POINT_A, 1e-3, r, "point A at Tn=%g after Tn=%g" % (Tn2, TN),
+                        calls=calls, Tn=Tn2)
 
 
 def direct_validation(ctx):
@@ -975,8 +1415,16 @@ def direct_validation(ctx):
         t = time.time()
         e2e_tolerance(ctx, 1e-5)
         ctx.log("e2e errTol=1e-5 %.1fs" % (time.time() - t))
+        # inner iteration cut short: either labelled as not converged, or the velocity must
+        # still be a zero of the converged pressure
+        t = time.time()
+        for mi, tol in ((2, 1e-5),) if ctx.quick else ((2, 1e-5), (3, 1e-5), (5, 1e-4),
+                                                         (2, 1e-3), (8, 1e-5)):
+            e2e_tolerance(ctx, tol, POINT_A, 20, maxIter=mi)
+        ctx.log("e2e small maxIterations %.1fs" % (time.time() - t))
         if not ctx.quick:
             e2e_history(ctx, 1e-5)
+            e2e_tn_change(ctx)
             for prm in (dict(POINT_A, lam=0.105), dict(POINT_A, D=0.21), dict(POINT_A, E=0.048)):
                 for tol in (1e-3, 1e-4, 1e-5):
                     e2e_tolerance(ctx, tol, prm, M=rng_choice(ctx, [20, 30]))
@@ -997,6 +1445,7 @@ def run(ctx):
         eom_src = vlib.read_src("equationOfMotion.py")
         mgr_src = vlib.read_src("manager.py")
         text, info = gen_eom_facts.generate(eom_src, mgr_src)
+        MESSAGES[:] = info["facts"]["messages"]
         ctx.write("EomFacts.v", text, sources=dict(
             files=["src/WallGo/equationOfMotion.py", "src/WallGo/manager.py"],
             sha=[vlib.sha(eom_src), vlib.sha(mgr_src)],
@@ -1075,6 +1524,6 @@ def replay(rep):
         if rep["kind"] == "history":
             e2e_history(c, rep["errTol"])
         else:
-            e2e_tolerance(c, rep["errTol"], rep["params"], rep.get("M", 20))
+            e2e_tolerance(c, rep["errTol"], rep["params"], rep.get("M", 20), rep.get("maxIter"))
         return 0
     return 0
